@@ -23,6 +23,8 @@ func init() {
 	ops["WifDecode"] = opWifDecode
 	ops["WifMutate"] = opWifMutate
 	ops["PartsPurity"] = opPartsPurity
+	ops["HDPathStr"] = opHDPathStr
+	ops["ShortKeyString"] = opShortKeyString
 }
 
 // ---- environment facts ---------------------------------------------------------------
@@ -390,6 +392,61 @@ func opPartsPurity(_ *HState, a Event) Event {
 				e["argmod"], e["which"] = true, []string{"version", "key", "chain code", "parent fingerprint"}[j]
 			}
 		}
+	})
+	return panicField(e, p, msg)
+}
+
+// opHDPathStr: master from a seed, a derivation path, neutering at the end -- as one stateless call whose result is
+// only the strings.  The derivation itself is judged step by step elsewhere (histories); this op exists so that
+// NewMaster / Child / Neuter / String take part in the replay (other call orders, 8 goroutines at once).
+func opHDPathStr(_ *HState, a Event) Event {
+	e := with(a, "strs", [][]int{})
+	p, msg := guard(func() {
+		k, err := hdkeychain.NewMaster(gBytes(a, "seed"), nets[gInt(a, "net")-1])
+		if err != nil {
+			e["err"] = err.Error()
+			return
+		}
+		out := [][]int{str(k.String())}
+		for _, x := range gList(a, "path") {
+			ix := gW32(Event{"x": x}, "x")
+			if k, err = k.Child(ix); err != nil {
+				e["err"] = err.Error()
+				break
+			}
+			out = append(out, str(k.String()))
+		}
+		if err == nil {
+			if n, err := k.Neuter(); err == nil {
+				out = append(out, str(n.String()))
+				if ad, err := n.Address(nets[0]); err == nil {
+					out = append(out, str(ad.EncodeAddress()))
+				}
+			}
+		}
+		e["strs"] = out
+	})
+	return panicField(e, p, msg)
+}
+
+// opShortKeyString: a private key assembled by NewExtendedKey from a scalar with fewer than 32 bytes (what
+// big.Int.Bytes() gives): the string form pads it on the left, and the library's own parser reads it back.
+func opShortKeyString(_ *HState, a Event) Event {
+	key := gBytes(a, "key")
+	e := with(a, "plen", 0, "marker", -1, "scalar", []int{}, "reparse", false, "restr", []int{})
+	p, msg := guard(func() {
+		cc := bytes.Repeat([]byte{7}, 32)
+		k := hdkeychain.NewExtendedKey(nets[0].HDPrivateKeyID[:], key, cc, []byte{1, 2, 3, 4}, 1, 5, true)
+		s := k.String()
+		pay := refB58Decode(s)
+		e["plen"] = len(pay)
+		if len(pay) == 82 {
+			e["marker"], e["scalar"] = int(pay[45]), ints(pay[46:78])
+		}
+		if k2, err := hdkeychain.NewKeyFromString(s); err == nil {
+			e["reparse"], e["restr"] = true, str(k2.String())
+		}
+		e["str"] = str(s)
 	})
 	return panicField(e, p, msg)
 }
